@@ -16,13 +16,14 @@ META = {
                                                            '_arvi_cpu', '_evi_cpu', '_gci_cpu', '_normalized_ratio_cpu', '_savi_cpu', '_sipi_cpu', '_ebbi_cpu',
                                                            '_normalize_data_cpu', '_true_color_numpy')] + ['xrspatial.utils.validate_arrays'],
     'bounds': {'quick': 'band rasters 2x2 (1x2 for the swap / scale / true_color jobs), every cell symbolic (NaN allowed for float dtypes), dtypes float32, float64, uint8, '
-                        'uint16, int32; c1, c2, soil_factor, gain, nodata symbolic',
+                        'uint16, int32; c1, c2, soil_factor, gain, nodata symbolic; one bit-exact job (z3 FloatingPoint): _normalized_ratio_cpu on two arbitrary finite non-negative IEEE singles',
                'thorough': 'same plus 2x3 rasters'},
     'stubs': ['numba.jit = identity', 'np.exp / np.sqrt Ackermannised'],
     'outside': ['float32 rounding of the arithmetic (exact reals; the single-precision statement is covered only as "integer inputs are converted before the arithmetic")',
                 'overflow to +-inf for |band| near 3e38', 'SAVI is checked against the formula the library documents in its own tests, '
                 '(nir-red)/((nir+red+L)(1+L)), which differs from Huete (1988) (see DESIGN.md)', 'CUDA paths'],
     'assumptions': ['bands finite or NaN (no infinities)'],
+    'technique': 'solver-based bounded symbolic execution of the real Python source (z3), counterexample replay on the real build; one lemma bit-exact over z3 FloatingPoint (QF_FP)',
     'budget_s': {'quick': 150, 'thorough': 900},
 }
 
